@@ -40,6 +40,9 @@ pub fn install_panic_hook() {
         } else {
             "<non-string panic payload>".to_string()
         };
+        if msg.contains("unsafe precondition") || std::env::var("VERIF_PANIC_TRACE").is_ok() {
+            eprintln!("PANIC at {}:{}: {}", file, line, msg);
+        }
         LAST_PANIC.with(|p| {
             let mut p = p.borrow_mut();
             // keep the first panic of a run (a second one is usually a consequence)
